@@ -150,7 +150,7 @@ CONFIG = {
                  "duplicate Subscribe / unmatched Unsubscribe panic and leave later deliveries unchanged; no goroutine left. non-trivial = a publish with |E|>=3 where a context-guarded member is "
                  "cancelled while others are pending and a later delivery follows, or a nil-valued publish with |E|>=1; distinct = hash of the op trace."),
         "jobs": [{"name": "notifier", "test": "TestC15Notifier", "checks": {"quick": 8000, "thorough": 1000000}, "shards": {"quick": 8, "thorough": 16}, "env": {"VKIT_PROFILE": "C15"}},
-                 regress("C15")],
+                 regress("C15"), dict(regress("C15"), name="regress_go_default", go="default")],
     },
     "C16": {
         "rule": ("rapid engine over CombineContext / ConflatedContext / ChainAfterFunc in a synctest bubble: 0-5 input contexts each carrying a distinct value (std cancel, deadline in virtual "
@@ -161,7 +161,10 @@ CONFIG = {
                  "and cancel not called, only the first input's values, panics on zero inputs; ChainAfterFunc's function called exactly once iff either context was cancelled, never twice; no "
                  "goroutine left after teardown. non-trivial = >=3 inputs with >=1 pre-cancelled and a step cancelling >=2 at once, or both contexts of a chain cancelled in the same step; "
                  "distinct = hash of the case."),
-        "jobs": [{"name": "context", "test": "TestC16Context", "checks": {"quick": 24000, "thorough": 8000000}, "shards": {"quick": 8, "thorough": 16}, "env": {"VKIT_PROFILE": "C16"}}],
+        "jobs": [{"name": "context", "test": "TestC16Context", "checks": {"quick": 24000, "thorough": 8000000}, "shards": {"quick": 8, "thorough": 16}, "env": {"VKIT_PROFILE": "C16"}},
+                 # construction-time / value semantics without a bubble, under both toolchains (context.Cause, AfterFunc and friends differ between Go releases)
+                 {"name": "context_static", "test": "TestC16Static", "checks": {"quick": 20000, "thorough": 2000000}, "shards": {"quick": 2, "thorough": 8}, "stall_sig": "C16/stall"},
+                 {"name": "context_static_go_default", "go": "default", "test": "TestC16Static", "checks": {"quick": 20000, "thorough": 2000000}, "shards": {"quick": 2, "thorough": 8}, "stall_sig": "C16/stall"}],
     },
     "C17": {
         "rule": ("rapid engine over bigbuff.Worker in a synctest bubble: stepper rules do (launched Do), done(holder), exit(instance gate: the worker function returns after it saw stop), race steps "
@@ -180,7 +183,8 @@ CONFIG = {
         "jobs": [{"name": "attempt", "test": "TestC20Attempt", "steps": 12, "checks": {"quick": 16000, "thorough": 2400000}, "shards": {"quick": 8, "thorough": 16}, "env": {"VKIT_PROFILE": "C20"}},
                  {"name": "attempt_free", "test": "TestC20Free", "checks": {"quick": 4000, "thorough": 600000}, "shards": {"quick": 4, "thorough": 16}},
                  # real clock, several (overlapping) attempts per case; count/closure facts only, hangs are the stall watchdog's business
-                 {"name": "attempt_real", "test": "TestC20Real", "checks": {"quick": 240, "thorough": 24000}, "shards": {"quick": 8, "thorough": 16}, "stall_sig": "C20/stall"}],
+                 {"name": "attempt_real", "test": "TestC20Real", "checks": {"quick": 240, "thorough": 24000}, "shards": {"quick": 8, "thorough": 16}, "stall_sig": "C20/stall"},
+                 {"name": "attempt_real_go_default", "go": "default", "test": "TestC20Real", "checks": {"quick": 240, "thorough": 24000}, "shards": {"quick": 8, "thorough": 16}, "stall_sig": "C20/stall"}],
     },
     "C14": {
         "rule": ("(free) free-running programs in a bubble: 2-6 callers x 2-12 invocations through Call with an own function or through 1-2 shared Wrap wrappers (one function serving overlapping invocations); oracle = bijection between invocations and executions (value and error of one finished execution each, none returned twice, own function for Call), concurrency bound checked inside the functions, Wait/Count afterwards. The stepper also bounds overtaking: a call seen queued at a quiescent point may not be passed by more than 8 calls made after that point. " + "rapid stepper over bigbuff.Workers in a synctest bubble: rules call(count 1-4, gated task returning a unique value/error; also via Wrap), release(task), wait (launched), "
@@ -281,6 +285,7 @@ CONFIG = {
                 "Plus range_faulty: package Range over a scripted faulty Consumer (Get/Commit/Rollback failures at drawn calls, callback continue/stop/panic/cancel, ctx nil/live/cancelled): "
                 "the recorded call order must be Get, fn, Commit per item with Rollback exactly on failure; non-trivial = the range ended by a Get/Commit failure or a panic.",
         "jobs": [{"name": "range_faulty", "test": "TestC02RangeFaulty", "checks": {"quick": 40000, "thorough": 2000000}, "shards": {"quick": 2, "thorough": 8}},
+                 {"name": "range_faulty_go_default", "go": "default", "test": "TestC02RangeFaulty", "checks": {"quick": 20000, "thorough": 1000000}, "shards": {"quick": 2, "thorough": 8}},
                  {"name": "conslin", "test": "TestConsLin", "checks": {"quick": 30000, "thorough": 1500000}, "shards": {"quick": 6, "thorough": 16}, "stall_sig": "C02/stall"},
                  buffree("C02", 12000, 600000), bufstep("C02", 24000, 800000)],
     },
@@ -290,6 +295,8 @@ CONFIG = {
                 "against an independent specification and metamorphic relations (permutation, added negative offsets); non-trivial = offsets contain >=2 of {negative, zero, ==size, >size, huge}.",
         "jobs": [buffree("C03", 12000, 600000), bufstep("C03", 24000, 800000),
                  {"name": "cleaner_pure", "test": "TestC03CleanerPure", "checks": {"quick": 60000, "thorough": 3000000},
+                  "shards": {"quick": 2, "thorough": 8}},
+                 {"name": "cleaner_pure_go_default", "go": "default", "test": "TestC03CleanerPure", "checks": {"quick": 30000, "thorough": 1500000},
                   "shards": {"quick": 2, "thorough": 8}}],
     },
     "C04": {
@@ -301,7 +308,8 @@ CONFIG = {
                 "optionally closed, or a FixedBufferCleaner overrun by the burst; one cooldown after the last change Size must equal the slowest backlog (<= max); non-trivial = more than 4096 values.",
         "jobs": [bufstep("C04", 24000, 800000),
                  {"name": "bulk", "test": "TestC04Bulk", "checks": {"quick": 600, "thorough": 30000}, "shards": {"quick": 4, "thorough": 8}},
-                 {"name": "probe", "test": "TestC04Probe", "checks": {"quick": 160, "thorough": 4000}, "shards": {"quick": 8, "thorough": 16}, "shrinktime": "10s"}],
+                 {"name": "probe", "test": "TestC04Probe", "checks": {"quick": 160, "thorough": 4000}, "shards": {"quick": 8, "thorough": 16}, "shrinktime": "10s"},
+                 {"name": "probe_go_default", "go": "default", "test": "TestC04Probe", "checks": {"quick": 80, "thorough": 2000}, "shards": {"quick": 8, "thorough": 16}, "shrinktime": "10s"}],
     },
     "C05": {
         "rule": BUF_MODEL + "non-trivial = a waking event (Put / cancel / Close) issued while a Get was observed blocked at quiescence; distinct = hash of the executed op trace." + WAITCOND_RULE + BUF_FREE +
@@ -343,6 +351,8 @@ CONFIG = {
              "checks": {"quick": 40000, "thorough": 30000000},
              "shards": {"quick": 4, "thorough": 16}},
             regress("C19"),
+            {"name": "callable_go_default", "go": "default", "test": "TestC19Callable", "checks": {"quick": 20000, "thorough": 6000000}, "shards": {"quick": 2, "thorough": 16}},
+            dict(regress("C19"), name="regress_go_default", go="default"),
         ],
     },
 }
